@@ -2,7 +2,7 @@
 groups live in vf/bounded/cNN.py and are wired by vf/props/CNN.py."""
 
 E1 = {
-    "C01": (["contracts.c01"], ["BaseEliminationOrder.get_elimination_order"]),
+    "C01": (["contracts.c01"], ["BaseEliminationOrder.get_elimination_order", "VariableElimination._get_elimination_order"]),
     "C08": (["contracts.c08"], ["DAG._get_ancestors_of", "DAG.active_trail_nodes", "DAG.is_dconnected", "DAG.get_markov_blanket",
                                  "BayesianNetwork.get_markov_blanket", "DAG.moralize", "DAG.get_ancestral_graph", "DAG.local_independencies", "DAG.minimal_dseparator"]),
     "C10": (["contracts.c10"], ["StructureScore.score"]),
